@@ -150,7 +150,19 @@ pub fn parse_file(
     let mut reports = ReportCollection::new();
 
     debug!("reading file `{}`", file_path.display());
-    let (path_str, file_content) = open_file(file_path)?;
+    let (path_str, file_content) = open_file(file_path).map_err(|mut report| {
+        // A file which was included is reported at the include statement.
+        if let Some(include) = file_stack.included_from(file_path) {
+            if let Some(file_id) = include.meta.file_id {
+                report.add_primary(
+                    include.meta.file_location(),
+                    file_id,
+                    "The file is included here.".to_string(),
+                );
+            }
+        }
+        report
+    })?;
     let is_user_input = file_stack.is_user_input(file_path);
     let file_id = file_library.add_file(path_str, file_content.clone(), is_user_input);
 
